@@ -147,7 +147,7 @@ def contracts():
             ("before_stmt", "return Err(format!(\"{name}: hook group cycle", 1, "proof { assert(first_group(*self, name@, it2.index@)); lemma_group_unique(*self, name@); }"),
             ],
         rewrites=[("T-ITER", r"(?P<h>\w+)\.hook_type\.iter\(\)\.(?:map\(\|(?P<e>\w+)\| (?P=e)\.(?:to_owned|clone)\(\)\)|cloned\(\)|copied\(\))\.collect\(\)", lambda m: f"crate::titer2::vec_to_hashset(&{m.group('h')}.hook_type)")],
-        names={"ret": r"let mut (\w+) = vec!\[\];", "h2": r"let mut (\w+) = self\.get_hook_rec", "h1": r"let (\w+) = hooks::Hook \{", "grp": r"for (\w+) in self\.group\.iter\(\)"})
+        names={"ret": r"let mut (\w+) = vec!\[\];", "h2": r"let mut (\w+) = self\.get_hook\w*\(", "h1": r"let (\w+) = hooks::Hook \{", "grp": r"for (\w+) in self\.group\.iter\(\)"})
     c["Config::get_hook"] = FnSpec(ret="r", sig="""
     ensures r matches Ok(v) ==> expand(*self, name@, self.group@.len()) == Some(hook_names(v@)), //@C10.groups_expanded_in_place_in_order
 """)
